@@ -3,18 +3,22 @@ import NeumannModel.Paths.DijkstraProofs
 import NeumannModel.Paths.TraverseProofs
 import NeumannModel.Paths.VarProofs
 import NeumannModel.Paths.AllPathsProofs
+import NeumannModel.Paths.AStarProofs
 /-
   C18 — "Path queries return real, optimal paths": the property theorems.
 
   Everything here is stated over the model of `Model.lean` and the declarative notions of `Spec.lean`
   (`BWalk`, `WWalk`, `TWalk`, `ChainOk`, `VarPathOk`) for EVERY graph: no bound on the number of nodes
   or edges, any ids, self-loops, parallel edges, duplicate ids, dangling endpoints.  Proofs live in
-  `BfsProofs`, `DijkstraProofs`, `TraverseProofs`, `VarProofs`, `AllPathsProofs` (loop invariants + fuel
-  adequacy).
+  `BfsProofs`, `DijkstraProofs`, `TraverseProofs`, `VarProofs`, `AllPathsProofs`, `AStarProofs` (loop
+  invariants + fuel adequacy).
 
-  Components / spanning forest / core numbers / triangles / A* / all-minimum-weight-paths: `Spec.lean` gives
-  the textbook definitions; there is NO theorem about the Rust algorithms — the engine is compared
-  with independent reference implementations by the correspondence run only.
+  A* is modelled for the default (zero) heuristic and answers the COST of the returned path (which of
+  several optimal paths the engine returns depends on heap tie order; the path itself is validated by
+  the correspondence run).  Components / spanning forest / core numbers / triangles /
+  all-minimum-weight-paths: `Spec.lean` gives the textbook definitions; there is NO theorem about the
+  Rust algorithms — the engine is compared with independent reference implementations by the
+  correspondence run only.
 -/
 namespace Neumann.Paths.Props
 open Neumann.Paths
@@ -156,6 +160,50 @@ example : NonNeg wGraph := by
   rcases he with rfl | rfl | rfl | rfl | rfl <;> decide
 example : (findWeightedPath wGraph 1 3).toOption = some { nodes := [1, 2, 3], edges := [21, 22], total := 1 } := by decide
 example : wGraph.hasNode 1 = true ∧ wGraph.hasNode 4 = true ∧ (findWeightedPath wGraph 1 4).toOption = none := by decide
+
+/-! ### astar_path (zero heuristic): the cost of a real walk, optimal; "no path" iff unreachable -/
+
+/-- the answered cost is the total weight of a real walk from `s` to `t` that follows edges the way
+    the requested direction allows and only visits existing nodes -/
+theorem astar_cost_is_walk (g : Graph) (dir : Dir) (s t : Nat) (c : Int) (hnn : NonNeg g)
+    (h : astarCost g dir s t = some c) : AWalk g dir s t c :=
+  Neumann.Paths.astar_cost_is_walk g dir s t c hnn h
+
+/-- no such walk is lighter -/
+theorem astar_cost_optimal (g : Graph) (dir : Dir) (s t : Nat) (c : Int) (hnn : NonNeg g)
+    (h : astarCost g dir s t = some c) : ∀ c', AWalk g dir s t c' → c ≤ c' :=
+  Neumann.Paths.astar_cost_optimal g dir s t c hnn h
+
+/-- for distinct existing endpoints, `path: None` is answered exactly when no walk exists
+    (includes fuel adequacy of the A* loop) -/
+theorem astar_none_iff_unreachable (g : Graph) (dir : Dir) (s t : Nat) (hnn : NonNeg g) (hst : s ≠ t)
+    (hs : g.hasNode s = true) (ht : g.hasNode t = true) :
+    astarCost g dir s t = none ↔ ¬ ∃ c, AWalk g dir s t c :=
+  Neumann.Paths.astar_none_iff_unreachable g dir s t hnn hst hs ht
+
+/-- the A* loop never stops for lack of fuel -/
+theorem astar_fuel_adequate (g : Graph) (dir : Dir) (s t : Nat) (hnn : NonNeg g) (hst : s ≠ t) :
+    astarLoop g dir t (astarFuel g) { closed := [], gs := [(s, 0)], heap := [(0, s)] } ≠ .outOfFuel :=
+  Neumann.Paths.astar_fuel_adequate g dir s t hnn hst
+
+/-- with the zero heuristic and `Direction::Outgoing`, A* answers exactly the total weight
+    `find_weighted_path` answers (and no path exactly when it answers `PathNotFound`), on every
+    graph with non-negative weights whose edge endpoints exist -/
+theorem astar_cost_eq_dijkstra_cost (g : Graph) (s t : Nat) (hnn : NonNeg g) (hend : EndpointsExist g)
+    (hs : g.hasNode s = true) (ht : g.hasNode t = true) :
+    astarCost g .out s t = (findWeightedPath g s t).toOption.map (·.total) :=
+  Neumann.Paths.astar_cost_eq_dijkstra_cost g s t hnn hend hs ht
+
+/-- non-vacuity on `wGraph` (parallel edges 5 / 4, a zero-weight edge, a missing weight, an
+    undirected edge): both answer 1 for 1 ⇝ 3; backwards over `Incoming` 3 ⇝ 1 costs 1 too, and the
+    pre-fix witness shape (one directed edge queried against its direction) has no path -/
+example : EndpointsExist wGraph := by
+  intro e he
+  simp only [wGraph, List.mem_cons, List.not_mem_nil, or_false] at he
+  rcases he with rfl | rfl | rfl | rfl | rfl <;> decide
+example : astarCost wGraph .out 1 3 = some 1 ∧ astarCost wGraph .inc 3 1 = some 1 ∧
+    astarCost wGraph .out 1 4 = none ∧ astarCost wGraph .both 1 4 = some 2 := by decide
+example : astarCost oneEdge .out 2 1 = none ∧ astarCost oneEdge .both 2 1 = some 1 := by decide
 
 /-! ### find_all_paths: all shortest paths -/
 
